@@ -71,7 +71,14 @@ def main():
             sh(f"git -C {REPO} worktree remove --force {target}")
         else:
             sh(f"git -C {REPO} checkout -- .")
-    (d / "result.json").write_text(json.dumps({"tier": a.tier, "seed": a.seed, "results": out}, indent=1) + "\n")
+    prev = {}
+    if (d / "result.json").exists():
+        try:
+            prev = json.loads((d / "result.json").read_text()).get("results", {})
+        except Exception:  # noqa: BLE001
+            prev = {}
+    prev.update(out)    # merge: running a subset of checks keeps the earlier results of the others
+    (d / "result.json").write_text(json.dumps({"tier": a.tier, "seed": a.seed, "results": prev}, indent=1) + "\n")
     return 0
 
 
